@@ -202,7 +202,7 @@ PROPS["C18"] = {
     "gen": [],
     "lean": ["QV.Props.C18"],
     "streams": ["c18"],
-    "rule": "each layout is a generated directory tree (root + 1-5 directories, 0-6 .qml files each; root types among Qt "
+    "rule": "strengthened: preflight of the real CLI per layout (kills a discovery that does not settle), c18-once (processing lines: every canonical directory and file once, processed set = reachability on the real file system), c18-resolve (module-not-found count = imports that lead nowhere; components of visible directories usable; base-class properties accepted), c18-nolower, 110 import-spelling layouts (cycles of length 2/3, ./ // trailing / and ., detours, two spellings of one directory), 50 symlink layouts, file-alias layouts (F50, repaired); new theorems each_directory_inserted_once, directories_read_once, import_spelling_irrelevant, import_detour_irrelevant, same_directory_same_module. each layout is a generated directory tree (root + 1-5 directories, 0-6 .qml files each; root types among Qt "
             "widget classes, QObject, components of any directory, unknown names; string imports '.', '..', '../sib', "
             "relative paths to existing directories, non-existent directories, 'missing/../x', file names, trailing '/' "
             "and '.'; planted mutually importing directories, mutually inheriting components (within and across "
@@ -276,7 +276,7 @@ PROPS["C15"] = {
     "gen": [],
     "lean": ["QV.Props.C15"],
     "streams": ["c15"],
-    "rule": "every case runs the REAL `qmluic generate-ui` binary (built by the stream's constructor from /repo's working tree "
+    "rule": "strengthened: (multi …) cases — 2–6 sources drawn from safe and unsafe shapes (.. anywhere, absolute) × 8 output-directory shapes × option spellings, the answer lists every file inside AND outside the output directory (model and spec); cli-fresh-oracle after every gen step of every history (each output byte-identical to a fresh run, untouched iff it already held that content, nothing else changed); regenerate grid (binding-only / constant-only / both / neither edits, removed and read-only outputs, stale outputs, broken-then-repaired source); after every kill point a complete re-run must restore the reference outputs; new theorems mixed_sources_refused, accepted_iff_all_safe, existing_file_untouched_unless_changed, unchanged_outputs_untouched, regenerate_equals_fresh, rerun_after_kill_completes. every case runs the REAL `qmluic generate-ui` binary (built by the stream's constructor from /repo's working tree "
             "into .work/cli-target under a file lock) in a fresh directory below $TMPDIR. cli-paths/spec-cli-paths: one source "
             "path shape x --output-directory shape x --no-dynamic-binding x --no-lowercase-file-name; refusal / created file "
             "names compared with the Lean model (kind=model) and with Spec.Fs.specRefused/specNames (kind=spec). cli-hist: "
